@@ -228,6 +228,7 @@ def run(ctx):
     if ctx.thorough:
         menu += [("k2b", [L], 1), ("k3a", [L], 1), ("k2w3", [L], 1), ("k2eps", [L], 0), ("k2vec", [L], 0)]
     ps = ml.e2_plans(ctx, menu, MONS, conform=False)
+    ps += ml.e2_plans(ctx, [("long6k", [3], 0)], MONS, conform=False, inits=drivers.long_inits)
     if ctx.thorough:
         ps += ml.e2_plans(ctx, [("big100", [3], 0)], MONS, entry="front", conform=False,
                           inits=lambda d: ml.block_labellings(d.Tp, d.K)[:1])
